@@ -155,7 +155,7 @@ void sched_set_edge(Scheduler* s, long mean_gap, const long* explicit_gaps, long
         s->explicit_gaps = (long*) malloc(sizeof(long) * (size_t) (nexplicit + 1));
         memcpy(s->explicit_gaps, explicit_gaps, sizeof(long) * (size_t) nexplicit);
     }
-    s->cap_gaps = 1L << 18;
+    s->cap_gaps = 1L << 15;
     s->gaps = (long*) malloc(sizeof(long) * (size_t) s->cap_gaps);
 }
 
@@ -163,11 +163,16 @@ static long next_gap(Scheduler* s)
 {
     long g;
     if (s->use_explicit_gaps)
-        g = s->explicit_gap_pos < s->nexplicit_gaps ? s->explicit_gaps[s->explicit_gap_pos++] : LONG_MAX;
+    {
+        if (s->explicit_gap_pos >= s->nexplicit_gaps) return LONG_MAX;
+        g = s->explicit_gaps[s->explicit_gap_pos++];
+    }
     else
         g = 1 + (long) s_below(s->rng, (uint64_t) (2 * s->edge_mean));
     if (g < 1) g = 1;
-    if (s->ngaps == s->cap_gaps) { s->overflow = 1; return LONG_MAX; }
+    // budget of edge pre-emptions per run: once it is used up the tasks are only switched at the ordinary yield points
+    // (the recorded gap list stays a complete description: a replay that runs out of gaps behaves the same way)
+    if (s->ngaps == s->cap_gaps) return LONG_MAX;
     s->gaps[s->ngaps++] = g;
     return g;
 }
